@@ -191,12 +191,16 @@ def build_adapters(which=None, variant=0):
 
     # ---------------- 2101 / 2102 ----------------
     for tag, mod in (("2101", m2101), ("2102", m2102)):
-        for sub in ("xz-pool", "bare-nodes", "xz-nodes"):
+        for sub in ("xz-pool", "bare-nodes", "xz-nodes", "odd-in-nodes"):
             name = f"{tag}.Network[{sub}]"
             if not want(name):
                 continue
             r_max = 1.7
-            if sub == "bare-nodes":
+            if sub == "odd-in-nodes":
+                # only odd scalars come in: no 0e can be produced in the first layer, the constructor falls back to ODD gates
+                kw = dict(irreps_in="2x0o", irreps_node_attr=None, reduce_output=False)
+                nf = {"x": _I("2x0o")}
+            elif sub == "bare-nodes":
                 if tag == "2102":
                     kw = dict(irreps_in=None, irreps_node_attr=None, reduce_output=False)
                 else:
